@@ -211,6 +211,23 @@ def run(item, ctx, tier, seed):
                 continue
             expected_groups = names if names is not None else glist
             check_object(ctx, case, g, data, cfg, expected_groups, T)
+            if ai % 3 == 0:
+                # the caller passes its own ndarrays and builds a second object from the very same arrays
+                arrs = [np.array([s for s, _ in pos_in], dtype=float), np.array([s for s, _ in neg_in], dtype=float),
+                        np.array([l for _, l in pos_in]), np.array([l for _, l in neg_in])]
+                keep = [a.copy() for a in arrs]
+                for second_cfg in (cfg, ot.CFGS[(ai + 1) % 4]):
+                    ok, gx = guarded(ctx, "construct-from-ndarrays", case, lambda: GroupScores(
+                        pos=arrs[0], neg=arrs[1], pos_groups=arrs[2], neg_groups=arrs[3], score_class=second_cfg[0],
+                        equal_class=second_cfg[1], **kw))
+                    ctx.tick()
+                    if ok:
+                        check_object(ctx, dict(case, via="ndarray inputs, reused", cfg=list(second_cfg)), gx, data, second_cfg,
+                                     expected_groups, T)
+                    if any(not np.array_equal(a, k_) for a, k_ in zip(arrs, keep)):
+                        ctx.fail("caller-arrays-unchanged-by-construction", case, observed=[a.tolist() for a in arrs],
+                                 expected=[k_.tolist() for k_ in keep])
+                        break
             ctx.outcome((tuple(assign), cfg, g.cm(np.array(T)).matrix.tobytes()))
             # from_labels
             if variant == 0:
